@@ -24,6 +24,12 @@ ASSUMPTIONS = [
 ]
 
 SCENARIOS = [
+    ("super-in-static-methods-keeps-the-class",
+     '#[constructor(new)]\nclass Shape {\n  #[static]\n  fn create() {\n    return Self.new();\n  }\n  #[static]\n  fn which() {\n    return Self;\n  }\n  fn describe(self) {\n    return "shape";\n  }\n}\n#[constructor(new), derive(Shape)]\nclass Circle {\n  #[static]\n  fn create() {\n    var c = super.create();\n    c.r = 1;\n    return c;\n  }\n  #[static]\n  fn which() {\n    return super.which();\n  }\n  fn describe(self) {\n    return "circle r=${self.r}";\n  }\n}\ntry {\n  print(Circle.create().describe());\n}\ncatch e {\n  print("create failed: " + e.context);\n}\nprint(Circle.which());\n#[constructor(new)]\nclass Node {\n  #[static]\n  fn which() {\n    return Self;\n  }\n  #[static]\n  fn build() {\n    return Self.new();\n  }\n  fn kind(self) {\n    return "node";\n  }\n}\n#[constructor(new)]\nclass Registry {\n  fn make_leaf_class(self) {\n    #[constructor(new), derive(Node)]\n    class Leaf {\n      #[static]\n      fn which() {\n        return super.which();\n      }\n      #[static]\n      fn build() {\n        return super.build();\n      }\n      fn kind(self) {\n        return "leaf";\n      }\n    }\n    return Leaf;\n  }\n  fn kind(self) {\n    return "registry";\n  }\n}\nvar Leaf = Registry.new().make_leaf_class();\nprint(Leaf.which());\nprint(Leaf.build().kind());',
+     ["circle r=1", "<class Circle>", "<class Leaf>", "leaf"]),
+    ("constructor-and-derives-taken-as-values-stay-bound",
+     'class Account {\n  #[constructor]\n  fn open(self, owner, balance) {\n    self.owner = owner;\n    self.balance = balance;\n  }\n  fn show(self) {\n    return "${self.owner}: ${self.balance}";\n  }\n}\nvar acct = Account.open("ann", 10);\nvar r1 = acct.open("ann", 20);\nprint(r1 == acct);\nprint(acct.show());\nvar reopen = acct.open;\nvar r2 = reopen("ann", 30);\nprint(r2 == acct);\nprint(acct.show());\nclass Temperature {\n  #[constructor]\n  fn celsius(self, c) {\n    self.c = c;\n  }\n  #[constructor]\n  fn fahrenheit(self, f) {\n    var init = self.celsius;\n    init((f - 32) * 5 / 9);\n  }\n}\ntry {\n  print(Temperature.fahrenheit(212).c);\n}\ncatch e {\n  print("lost initialisation: " + e.context);\n}\nvar is_a = acct.derives;\nprint(is_a(Account));',
+     ["true", "ann: 20", "true", "ann: 30", "100", "true"]),
     ("fields-first-then-nearest-method",
      '#[constructor(new)] class A { fn m(self) { return "A.m"; } fn n(self) { return "A.n"; } }\n#[constructor(new), derive(A)] class B { fn m(self) { return "B.m"; } }\n'
      '#[constructor(new), derive(B)] class C { fn n(self) { return "C.n"; } }\nvar c = C.new(); print(c.m()); print(c.n()); var b = B.new(); print(b.m()); print(b.n());\n'
@@ -159,7 +165,7 @@ def correspondence(ctx, model_ok=True):
                     k = next((i for i in range(min(len(got), len(norm_exp))) if got[i] != norm_exp[i]), None)
                     failures.append({"what": "class-table model and implementation disagree on which method a lookup selects", "request": q, "program": src,
                                      "first_difference": None if k is None else {"query": q.split("|")[1].split(";")[k].strip(), "model": norm_exp[k], "real": got[k]},
-                                     "status": c[0], "signature": "model-vs-real class lookup", "failing_input": c[0] != "ok"})
+                                     "status": c[0], "signature": "model-vs-real class lookup", "failing_input": True})
         except Exception as e:
             broken.append("model driver cls: %s" % e)
     scen = [(n, s, {}) for n, s, _ in SCENARIOS]
